@@ -628,6 +628,44 @@ func c10Handles(g *rand.Rand, res *ev.Result, trunk string, tag string) {
 		}
 		res.Seen("handles|traffic-with-churn")
 	}
+	// (h) blocked reading: a Mux created with WithBlockedRead demultiplexes nothing until it is unblocked, so
+	// frames that arrive before its connections are opened are not lost — also for the second Mux built from
+	// the same option list, after the first one was unblocked
+	{
+		opts := []multiplex.Option{multiplex.WithBlockedRead()}
+		ok := true
+		for k := 0; k < 2 && ok; k++ {
+			a4, b4, err := trunkPair(trunk)
+			if err != nil {
+				return
+			}
+			sender := multiplex.Multiplex(a4)
+			recv := multiplex.Multiplex(b4, opts...)
+			ca, _ := sender.Open(5300)
+			werr := make(chan error, 1)
+			go func() { werr <- sendN(ca, 5300, 0, 3) }() // on a pipe trunk this blocks until the receiver reads
+			time.Sleep(30 * time.Millisecond)             // the frames are on their way while nothing is open yet
+			cb, _ := recv.Open(5300)
+			recv.Unblock()
+			r := recvN(cb, 5300, 0, 3, 5*time.Second)
+			var we error
+			select {
+			case we = <-werr:
+			case <-time.After(5 * time.Second):
+				we = fmt.Errorf("writer still blocked")
+			}
+			recv.Unblock() // unblocking twice is harmless
+			sender.Close()
+			recv.Close()
+			if r != "" || we != nil {
+				viol("blocked-read-lost-frames", fmt.Sprintf("Mux #%d built with WithBlockedRead from one option list: frames sent before its connection was opened (and before Unblock): write error %v; %s", k+1, we, r))
+				ok = false
+			}
+		}
+		if ok {
+			res.Seen("handles|blocked-read|" + trunk)
+		}
+	}
 	// (e) a receiver that reads late but stays within its configured queue length loses nothing, whatever
 	// that length is
 	for _, ql := range []int{1, 3, 300, 1000} {
